@@ -18,14 +18,15 @@ judge : the property text evaluated on the REAL scheduler's log — every status
 Two by-design deviations of cylc-flow are recorded findings (findings/C09.json) and are recognised by
 their exact shape only: `believed-reversal` (a polled or internal started / succeeded / failed /
 submission-failed message is believed even when it moves the status backwards) and `final-not-terminal` (a received job message after submit-failed,
-or `succeeded` after failed, changes the finished status).
+or `succeeded` after failed, changes the finished status) — and the designed step back `job-vacated`
+(a `vacated/<SIGNAL>` message puts the task back to submitted).
 -/
 import CylcModel.MsgJson
 open Lean CylcModel.Drv CylcModel.Sched CylcModel.Msg
 
 namespace CylcModel.DrvC09
 
-def findingKeys : List String := ["believed-reversal", "final-not-terminal"]
+def findingKeys : List String := ["believed-reversal", "final-not-terminal", "job-vacated"]
 
 def isFinalS (s : String) : Bool := ["succeeded", "failed", "submit-failed", "expired"].contains s
 
@@ -56,6 +57,7 @@ def judgeTr (ts : List TInfo) (idx : Nat) (recs : List Rec) (t : Tr) : Option St
       else if t.new == "waiting" && retryOK (tinfo? ts t.n) top t.old then none
       else
         let what := s!"{describe idx t} on {top.fl} message '{top.m}' (status before the message: {top.b.st})"
+        if top.m.startsWith "vacated/" && t.new == "submitted" then some s!"job-vacated: {what}" else
         match msgStatus? top.m with
         | some ms =>
           if (top.fl == "polled" || top.fl == "internal") && top.m != "submitted" && behind ms top.b.st then
